@@ -33,12 +33,22 @@ type FibNextHopEntry struct {
 	Cost    uint64
 }
 
+// FibNextHopsUpdate is the complete new set of nexthops of one prefix.
+type FibNextHopsUpdate struct {
+	Name     enc.Name
+	NextHops []FibNextHopEntry
+}
+
 // FibStrategy represents the functionality that a FIB-strategy table should implement.
 type FibStrategy interface {
 	FindNextHopsEnc(name enc.Name) []*FibNextHopEntry
 	FindStrategyEnc(name enc.Name) enc.Name
 	InsertNextHopEnc(name enc.Name, nextHop uint64, cost uint64)
 	ClearNextHopsEnc(name enc.Name)
+	// ReplaceNextHopsEnc replaces the nexthops of every listed prefix (an empty
+	// list clears the prefix) as one atomic step: a concurrent lookup sees the
+	// table either before or after the whole batch, never in between.
+	ReplaceNextHopsEnc(updates []FibNextHopsUpdate)
 	RemoveNextHopEnc(name enc.Name, nextHop uint64)
 	GetAllFIBEntries() []FibStrategyEntry
 	SetStrategyEnc(name enc.Name, strategy enc.Name)
